@@ -141,7 +141,16 @@ Inductive label :=
 | LFire (k : nat)                  (* the expiry goroutine of the k-th recorded failure runs: Fails -1.  Enabled from
                                       failure time + fail_timeout on, at any later moment *)
 | LTick (d : Z)                    (* time passes *)
-| LHealth (h : nat) (b : bool).    (* the health-check worker stores Unhealthy(h) := b *)
+| LHealth (h : nat) (b : bool)     (* the health-check worker stores Unhealthy(h) := b *)
+| LCancel (t : nat).               (* the client of request t goes away: the context of its outgoing request becomes
+                                      context.Canceled — at ANY point of the request's life (before Select, inside it,
+                                      in the window, inside acquireConn, during the forward, back in the retry loop).
+                                      Proxy.ServeHTTP consults that context nowhere between its entry and the forward
+                                      call (keepRetrying looks at the error of the previous ATTEMPT only), so the step
+                                      moves no counter and no program counter: a request whose context is already
+                                      cancelled when its attempt begins still selects, acquires its slot, enters the
+                                      forward call — whose transport then answers context.Canceled: LFinish t OCancel —
+                                      and gives the slot back in the deferred decrement *)
 
 (* what a Select may answer after the reads it made: [pol obs ho] *)
 Definition policy := list (nat * bool) -> option nat -> bool.
@@ -241,6 +250,12 @@ Definition step (c : config) (pol : policy) (s : state) (l : label) : option sta
       end
   | LTick d => if 0 <=? d then Some (set_now s (now s + d)) else None
   | LHealth h b => Some (set_unhealthy s (setb (unhealthy s) h b))
+  | LCancel t =>
+      match nth_error (threads s) t with
+      | Some (Done _) => None
+      | Some _ => Some s
+      | None => None
+      end
   end.
 
 Fixpoint run (c : config) (pol : policy) (s : state) (ls : list label) : option state :=
@@ -337,8 +352,10 @@ Inductive hstep :=
 | HStream (t : nat)                              (* backend answers headers, body still streaming *)
 | HFinish (t : nat) (o : outcome) (again : bool) (* the round trip ends with o *)
 | HWait (d : Z)                                  (* d clock units pass; due expiry goroutines run *)
-| HHealth (h : nat) (b : bool).                  (* the health-check worker finishes its check of host h with verdict
+| HHealth (h : nat) (b : bool)                   (* the health-check worker finishes its check of host h with verdict
                                                     unhealthy = b *)
+| HCancel (t : nat).                             (* the client of request t disconnects (its context is cancelled) while
+                                                    the request is blocked wherever it is *)
 
 Inductive ev :=
 | EvSel (h : option nat)   (* Select returned host h / nil *)
@@ -526,6 +543,12 @@ Definition hexec (c : config) (pol : policy) (ps : psel) (s : state) (h : hstep)
       | Some s1 => Some (s1, EvNone)
       | None => None
       end
+  | HCancel t =>
+      (* the request stays where it is *)
+      match step c pol s (LCancel t) with
+      | Some s1 => Some (s1, pc_ev (nth_error (threads s1) t))
+      | None => None
+      end
   end.
 
 (* model state vs the observed snapshot (the transport's own count is not a model observable
@@ -574,7 +597,8 @@ Record sbook := {
   b_now : Z;
   b_prev : list hsnap;           (* previous snapshot *)
   b_unh : list bool;             (* verdicts the health-check worker was given / flags the harness stored *)
-  b_since : list (nat * list bool)  (* request t is inside Select: hosts unhealthy since before it entered *)
+  b_since : list (nat * list bool); (* request t is inside Select: hosts unhealthy since before it entered *)
+  b_gone : list nat              (* requests whose client has disconnected (context cancelled by the harness) *)
 }.
 
 Fixpoint lookup_t {A} (t : nat) (l : list (nat * A)) : option A :=
@@ -589,11 +613,11 @@ Definition sel_result (b : sbook) (t : nat) (e : ev) (sn : list hsnap) : sbook :
   match e with
   | EvMid =>
       {| b_fwd := b_fwd b; b_sel := drop_t t (b_sel b); b_log := b_log b; b_now := b_now b; b_prev := sn;
-         b_unh := b_unh b; b_since := (t, b_unh b) :: drop_t t (b_since b) |}
+         b_unh := b_unh b; b_since := (t, b_unh b) :: drop_t t (b_since b); b_gone := b_gone b |}
   | _ =>
       {| b_fwd := b_fwd b;
          b_sel := match e with EvSel (Some x) => (t, x) :: drop_t t (b_sel b) | _ => drop_t t (b_sel b) end;
-         b_log := b_log b; b_now := b_now b; b_prev := sn; b_unh := b_unh b; b_since := drop_t t (b_since b) |}
+         b_log := b_log b; b_now := b_now b; b_prev := sn; b_unh := b_unh b; b_since := drop_t t (b_since b); b_gone := b_gone b |}
   end.
 
 Definition book_step (ft : Z) (b : sbook) (h : hstep) (e : ev) (sn : list hsnap) : sbook :=
@@ -602,26 +626,28 @@ Definition book_step (ft : Z) (b : sbook) (h : hstep) (e : ev) (sn : list hsnap)
   | HBegin t _ =>
       {| b_fwd := match e with EvFwd x => (t, x) :: b_fwd b | _ => b_fwd b end;
          b_sel := drop_t t (b_sel b); b_log := b_log b; b_now := b_now b; b_prev := sn;
-         b_unh := b_unh b; b_since := b_since b |}
+         b_unh := b_unh b; b_since := b_since b; b_gone := b_gone b |}
   | HFinish t o _ =>
       match lookup_t t (b_fwd b) with
       | Some x =>
           {| b_fwd := drop_t t (b_fwd b); b_sel := b_sel b;
              b_log := match o with OError => if 0 <? ft then (x, b_now b) :: b_log b else b_log b | _ => b_log b end;
-             b_now := b_now b; b_prev := sn; b_unh := b_unh b; b_since := b_since b |}
+             b_now := b_now b; b_prev := sn; b_unh := b_unh b; b_since := b_since b; b_gone := b_gone b |}
       | None => {| b_fwd := b_fwd b; b_sel := b_sel b; b_log := b_log b; b_now := b_now b; b_prev := sn;
-                   b_unh := b_unh b; b_since := b_since b |}
+                   b_unh := b_unh b; b_since := b_since b; b_gone := b_gone b |}
       end
   | HWait d => {| b_fwd := b_fwd b; b_sel := b_sel b; b_log := b_log b; b_now := b_now b + d; b_prev := sn;
-                  b_unh := b_unh b; b_since := b_since b |}
+                  b_unh := b_unh b; b_since := b_since b; b_gone := b_gone b |}
   | HHealth x v =>
       {| b_fwd := b_fwd b; b_sel := b_sel b; b_log := b_log b; b_now := b_now b; b_prev := sn;
          b_unh := set_nth (b_unh b) x v;
          (* a host declared healthy while a Select is running may be chosen by it from then on *)
          b_since := if v then b_since b
-                    else map (fun tl : nat * list bool => (fst tl, set_nth (snd tl) x false)) (b_since b) |}
+                    else map (fun tl : nat * list bool => (fst tl, set_nth (snd tl) x false)) (b_since b); b_gone := b_gone b |}
   | HStream _ => {| b_fwd := b_fwd b; b_sel := b_sel b; b_log := b_log b; b_now := b_now b; b_prev := sn;
-                    b_unh := b_unh b; b_since := b_since b |}
+                    b_unh := b_unh b; b_since := b_since b; b_gone := b_gone b |}
+  | HCancel t => {| b_fwd := b_fwd b; b_sel := b_sel b; b_log := b_log b; b_now := b_now b; b_prev := sn;
+                    b_unh := b_unh b; b_since := b_since b; b_gone := t :: b_gone b |}
   end.
 
 Definition book_unexpired (ft : Z) (b : sbook) (h : nat) : Z :=
@@ -689,6 +715,43 @@ Definition begin_spec (b : sbook) (h : hstep) (e : ev) : bool :=
   | _ => true
   end.
 
+Definition hsnap_eqb (x y : hsnap) : bool :=
+  let '(c1, f1, i1, d1, l1, u1) := x in
+  let '(c2, f2, i2, d2, l2, u2) := y in
+  (c1 =? c2) && (f1 =? f2) && (i1 =? i2) && bool_eqb d1 d2 && bool_eqb l1 l2 && bool_eqb u1 u2.
+Fixpoint snaps_eqb (a b : list hsnap) : bool :=
+  match a, b with
+  | [], [] => true
+  | x :: r, y :: r' => hsnap_eqb x y && snaps_eqb r r'
+  | _, _ => false
+  end.
+
+(* the client's disconnect itself moves nothing: the request stays where the books have it (waiting for
+   Select, holding a host in the window, being forwarded) and every counter keeps its value.  What
+   happens to a request whose client is gone is then stated by the clauses every request is under:
+   holding a host that is not full it still takes its slot and ARRIVES IN THE TRANSPORT ([begin_spec]:
+   ending in the window, slot taken, is the leak), Conns = requests inside the transport after every
+   step ([snap_spec]), and zero at quiescence *)
+Definition cancel_spec (b : sbook) (h : hstep) (e : ev) (sn : list hsnap) : bool :=
+  match h with
+  | HCancel t =>
+      snaps_eqb sn (b_prev b) &&
+      match lookup_t t (b_fwd b), lookup_t t (b_sel b) with
+      | Some x, _ => ev_eqb e (EvFwd x)
+      | None, Some x => ev_eqb e (EvSel (Some x))
+      | None, None => match e with EvIdle | EvMid | EvSel None => true | _ => false end
+      end
+  | _ => true
+  end.
+
+(* the forward of a request whose client is gone ends in context.Canceled: the client is answered 499
+   (and, by [snap_spec], no failure is recorded for it and the slot is given back) *)
+Definition gone_spec (b : sbook) (h : hstep) (e : ev) : bool :=
+  match h with
+  | HFinish t OCancel _ => ev_eqb e (EvDone 499)
+  | _ => true
+  end.
+
 Fixpoint spec_trace (mc mf ft : Z) (b : sbook) (tr : list (hstep * ev * list hsnap)) : bool :=
   match tr with
   | [] =>
@@ -698,7 +761,7 @@ Fixpoint spec_trace (mc mf ft : Z) (b : sbook) (tr : list (hstep * ev * list hsn
   | (h, e, sn) :: r =>
       let b' := book_step ft b h e sn in
       (match h with HSelect _ | HSelScan _ | HSelPol _ => choice_spec b e | _ => true end) &&
-      since_spec b h e && begin_spec b h e &&
+      since_spec b h e && begin_spec b h e && cancel_spec b h e sn && gone_spec b h e &&
       snap_spec mc mf ft b' sn && spec_trace mc mf ft b' r
   end.
 
@@ -730,7 +793,21 @@ Inductive case :=
   (* one request through the REAL http.Transport to a loopback backend that answers, drops the
      connection, or is abandoned by the client: status, Conns while the backend holds the request,
      Conns and Fails afterwards (max_fails 1, fail_timeout 1h, max_conns 5) *)
-| CLive (o : outcome) (code conns_during conns_after fails_after : Z).
+| CLive (o : outcome) (code conns_during conns_after fails_after : Z)
+  (* the real retry loop and the real http.Transport (max_conns 1, try_duration set): request A holds the only
+     slot, request B waits in keepRetrying's loop (Select answers nil, sleep try_interval, again), B's client goes
+     away while it waits, A is answered; B's next attempt takes the slot with its context already cancelled:
+     its status, Conns while A was held, Conns at quiescence, and the status of a request C sent afterwards *)
+| CLiveGone (code_b conns_wait conns_after code_c : Z).
+
+Fixpoint hrun (c : config) (pol : policy) (ps : psel) (s : state) (hs : list hstep) (e : ev) : option (state * ev) :=
+  match hs with
+  | [] => Some (s, e)
+  | h :: r => match hexec c pol ps s h with
+              | Some (s', e') => hrun c pol ps s' r e'
+              | None => None
+              end
+  end.
 
 Definition mk_config (hosts : nat) (mc mf ft : Z) : config :=
   {| c_hosts := hosts; c_max_conns := mc; c_max_fails := mf; c_fail_timeout := ft |}.
@@ -746,7 +823,7 @@ Definition judge (c : case) : N :=
       let s0 := init_threads 0 (fun h => nth h unh false) nthreads in
       let agree := snap_agrees cfg s0 snap0 && model_trace pol cfg s0 trace in
       let b0 := {| b_fwd := []; b_sel := []; b_log := []; b_now := 0; b_prev := snap0;
-                   b_unh := unh ++ repeat false (hosts - length unh); b_since := [] |} in
+                   b_unh := unh ++ repeat false (hosts - length unh); b_since := []; b_gone := [] |} in
       let spec := (length snap0 =? hosts)%nat && snap_spec mc mf ft b0 snap0 &&
                   spec_trace mc mf ft b0 trace in
       verdict agree spec
@@ -804,5 +881,29 @@ Definition judge (c : case) : N :=
         | None => false
         end in
       let spec := (cd =? 1) && (ca =? 0) && (fa =? match o with OError => 1 | _ => 0 end) in
+      verdict agree spec
+  | CLiveGone cb cw ca cc =>
+      let cfg := mk_config 1 1 1 1000000000 in
+      let pol := pol_std 1 in
+      let ps := pol_first cfg in
+      let s0 := init_threads 0 (fun _ => false) 3 in
+      let agree :=
+        match hrun cfg pol ps s0 [HSelect 0; HBegin 0 false; HSelect 1; HBegin 1 true; HCancel 1] EvNone with
+        | Some (s1, e1) =>
+            ev_eqb e1 EvIdle && (conns s1 0%nat =? cw) &&
+            match hrun cfg pol ps s1 [HFinish 0 OSuccess false; HSelect 1; HBegin 1 true; HFinish 1 OCancel true] EvNone with
+            | Some (s2, e2) =>
+                ev_eqb e2 (EvDone cb) && (conns s2 0%nat =? ca) &&
+                match hrun cfg pol ps s2 [HSelect 2; HBegin 2 false; HFinish 2 OSuccess false] EvNone with
+                | Some (_, e3) => ev_eqb e3 (EvDone cc)
+                | None => false
+                end
+            | None => false
+            end
+        | None => false
+        end in
+      (* the property: the slot is counted while A is forwarded, the request whose client left is answered
+         499, nothing stays counted when traffic has stopped, and the idle backend serves the next request *)
+      let spec := (cw =? 1) && (cb =? 499) && (ca =? 0) && (cc =? 0) in
       verdict agree spec
   end.
